@@ -116,7 +116,7 @@ theorem fetch_item_fidelity (utf8 : Bool) (reqExt : Option Bool) (it : Item) (t 
     literal (UID FETCH): the client hands a message to the command once per key. -/
 theorem resp_fidelity_fetch (cfg : Cfg) (uidMode : Bool) (reqExt : Option Bool) (ms : List Msg) (bytes tag text : Str)
     (ht : IsTag tag) (hx : IsText text)
-    (hseq : ∀ m ∈ ms, m.seq < 4294967296)
+    (hseq : ∀ m ∈ ms, m.seq ≠ 0 ∧ m.seq < 4294967296)
     (hwf : ∀ m ∈ ms, ∀ it ∈ m.items, RespSpec.wfItem reqExt it = true) (hb : ∀ m ∈ ms, ∀ it ∈ m.items, fetch_Bounded it)
     (hkey : ∀ m ∈ RespSpec.canonMsgs ms, fetchKey uidMode m ≠ 0) (hnd : ((RespSpec.canonMsgs ms).map (fetchKey uidMode)).Nodup)
     (hp : printFetch cfg ms = some bytes) :
@@ -246,10 +246,11 @@ theorem resp_fidelity_esearch (cfg : Cfg) (uidMode : Bool) (stag : Str) (o : Opt
 /-! ## APPENDUID, COPYUID, MOVE -/
 
 theorem resp_fidelity_append_some (tag text : Str) (ht : IsTag tag) (hx : IsText text) (d : AppendData)
-    (hv : d.uidValidity < 4294967296) (hu : d.uid < 4294967296) :
+    (hwf : RespSpec.wfAppend (some d) = true) :
     (parseAll (tag ++ asc " OK " ++ appendCodeText (some d) ++ text ++ CRLFb)).map deliverAppend =
-      some (RespSpec.canonAppend (some d)) :=
-  append_some_fidelity tag text ht hx d hv hu
+      some (RespSpec.canonAppend (some d)) := by
+  simp only [RespSpec.wfAppend, Bool.and_eq_true, decide_eq_true_eq] at hwf
+  exact append_some_fidelity tag text ht hx d hwf.2 hwf.1.2 (by omega)
 
 theorem resp_fidelity_append_none (tag text : Str) (ht : IsTag tag) (hx : IsText text) :
     (parseAll (tag ++ asc " OK " ++ appendCodeText none ++ text ++ CRLFb)).map deliverAppend =
@@ -274,12 +275,12 @@ theorem resp_fidelity_move_some (d : CopyData) (ex : List Nat) (tag text : Str) 
     (hv : d.uidValidity < 4294967296)
     (hs : NumSet.Canon d.src) (hsne : d.src ≠ []) (hsd : NumSet.dynamic d.src = false)
     (hd : NumSet.Canon d.dst) (hdne : d.dst ≠ []) (hdd : NumSet.dynamic d.dst = false)
-    (hex : ∀ n ∈ ex, n < 4294967296) (bytes : Str) (hp : printMove (some d) ex = some bytes) :
+    (hex : ∀ n ∈ ex, n ≠ 0 ∧ n < 4294967296) (bytes : Str) (hp : printMove (some d) ex = some bytes) :
     (parseAll (bytes ++ (tag ++ asc " OK " ++ text ++ CRLFb))).map deliverMove = some (RespSpec.canonCopy (some d), ex) :=
   move_some_fidelity d ex tag text ht hx hv hs hsne hsd hd hdne hdd hex bytes hp
 
 theorem resp_fidelity_move_none (ex : List Nat) (tag text : Str) (ht : IsTag tag) (hx : IsText text)
-    (hex : ∀ n ∈ ex, n < 4294967296) (bytes : Str) (hp : printMove none ex = some bytes) :
+    (hex : ∀ n ∈ ex, n ≠ 0 ∧ n < 4294967296) (bytes : Str) (hp : printMove none ex = some bytes) :
     (parseAll (bytes ++ (tag ++ asc " OK " ++ text ++ CRLFb))).map deliverMove = some (RespSpec.canonCopy none, ex) :=
   move_none_fidelity ex tag text ht hx hex bytes hp
 
@@ -306,7 +307,7 @@ theorem resp_fidelity_expunge (l : List Nat) (tag text : Str) (ht : IsTag tag) (
     simpa using this
   have hlines : AllRead (l.map (fun n => star ++ [32] ++ encNumber n ++ asc " EXPUNGE\r\n") ++ [tag ++ asc " OK " ++ text ++ CRLFb])
       (l.map Event.expunge ++ [Event.done tag (asc "OK") Code.none]) :=
-    AllRead.append (AllRead.map _ _ l (fun n hn => expunge_line n (hall n hn).2)) (AllRead.single (done_line tag text ht hx))
+    AllRead.append (AllRead.map _ _ l (fun n hn => expunge_line n (by have := (hall n hn).1; omega) (hall n hn).2)) (AllRead.single (done_line tag text ht hx))
   have hflat : printExpunges l ++ (tag ++ asc " OK " ++ text ++ CRLFb) =
       (l.map (fun n => star ++ [32] ++ encNumber n ++ asc " EXPUNGE\r\n") ++ [tag ++ asc " OK " ++ text ++ CRLFb]).flatten := by
     simp [printExpunges, List.flatMap]
